@@ -19,6 +19,10 @@ func main() {
 		if strings.HasPrefix(s.Name, "sleep/") && !strings.HasPrefix(s.Name, "sleep/twice") {
 			sc.Bound, sc.ThoroughBound = -1, -1
 		}
+		if strings.Contains(s.Name, "lazy-consumer") {
+			// many ticks, each with three enumerated random answers: one preemption is what the quick tier affords
+			sc.Bound, sc.ThoroughBound = 1, 2
+		}
 		scs = append(scs, sc)
 	}
 	mcx.Main("C20", scs, []string{
